@@ -44,8 +44,11 @@ def main():
                 status = 'SILENT-OK' if p.returncode == 0 else 'FALSE-ALARM(exit %d)' % p.returncode
                 if m['benign'] == 'noverdict' and p.returncode == 2 and 'VIOLATION' not in p.stdout:
                     status = 'SILENT-OK'      # a restructuring the structure-bound rules decline to judge: no verdict, and no alarm
+            if m.get('novd'):
+                # a defective change on which the rules that could judge it decline (restructured / replaced routine): recorded as such
+                status = 'NO-VERDICT' if (p.returncode == 2 and 'VIOLATION' not in p.stdout) else ('CAUGHT' if fired else 'MISSED(exit %d)' % p.returncode)
             print('%-14s %-4s %s' % (status, m['prop'], m['name']))
-            if status not in ('CAUGHT', 'SILENT-OK'):
+            if status not in ('CAUGHT', 'SILENT-OK', 'NO-VERDICT'):
                 ok = False
                 print('\n'.join('      ' + l for l in p.stdout.splitlines()[-12:]))
     finally:
